@@ -562,7 +562,9 @@ func c13CheckMMN(ctx *Ctx, res *Result, pats []string, kind string) {
 	res.Count("mmn_"+kind, len(pats))
 }
 
-// ---------- the two uint16 overflows: implementation against the spec only ----------
+// ---------- very long patterns and large products (stateID was a uint16 until the fix
+// "makepat: do not let state numbers wrap around at 65536"): implementation against the
+// spec only, the list-based model is quadratic ----------
 
 func c13CheckOverflow(ctx *Ctx, res *Result) {
 	big := strings.Repeat("a", 65536)
